@@ -222,11 +222,49 @@ Fixpoint check_sess (c : cfg) (s : sess) (steps : list sstepobs) : bool :=
       end
   end.
 
+(* eventBufferSize; Debounce.window_cap_is_constant ties it to the generated constant K.eventBufferSize
+   (kept out of this file so that the case shards do not depend on Gen/Consts.vo) *)
+Definition window_cap : nat := 1000.
+
+(* ------------------------------------------------------------ real-time cluster scenarios *)
+(* one step of a scenario against the scripted nodes of harness/node (real debouncers, real pools): the
+   model steps it amounts to, and what was observed once the session had settled: known ids with their
+   node-to-node address, ids with a filled pool, ids offered (Pick yields them and they have connections) *)
+Inductive cstep := CStep (sts : list sstep) (known : list (Z * Z)) (pool : list Z) (off : list Z).
+
+Fixpoint model_ssteps (c : cfg) (s : sess) (sts : list sstep) : option sess :=
+  match sts with
+  | [] => Some s
+  | st :: tl => match fst (model_sstep c s st) with Some s' => model_ssteps c s' tl | None => None end
+  end.
+
+Definition offered_m (s : sess) (id : Z) : bool :=
+  zmem id (s_pool s) && match mget id (hosts (s_ring s)) with Some h => h_up h | None => false end.
+
+Fixpoint check_cluster (c : cfg) (s : sess) (steps : list cstep) : bool :=
+  match steps with
+  | [] => true
+  | CStep sts known pool off :: tl =>
+      match model_ssteps c s sts with
+      | None => false
+      | Some s' =>
+          strictly_sorted (map fst known) && (length known =? length (hosts (s_ring s')))%nat
+          && forallb (fun p => match mget (fst p) (hosts (s_ring s')) with Some h => n2n_key h =? snd p | None => false end) known
+          && set_agrees pool (s_pool s')
+          && strictly_sorted off
+          && forallb (fun p => Bool.eqb (offered_m s' (fst p)) (zmem (fst p) off)) known
+          && forallb (fun id => zmem id (map fst known)) off
+          && check_cluster c s' tl
+      end
+  end.
+
 (* ------------------------------------------------------------ cases *)
 Inductive case :=
 | CHostFns (h from : hostinfo) (upd : hostinfo) (n2nk : Z) (invalid validpeer : bool) (fromrow : option hostinfo)
 | CRing (steps : list ringstep) (final : dump)
-| CSess (c : cfgspec) (steps : list sstepobs).
+| CSess (c : cfgspec) (steps : list sstepobs)
+| CWindow (n : nat) (delivered : list Z)
+| CCluster (c : cfgspec) (steps : list cstep).   (* n frames numbered 0..n-1 into one debounce window: the numbers flush delivers *)
 
 Definition check (c : case) : bool :=
   match c with
@@ -235,6 +273,8 @@ Definition check (c : case) : bool :=
       && Bool.eqb (is_valid_peer h) validpeer && opt_eqb host_eqb (host_from_row h) fromrow
   | CRing steps final => check_ring empty_ring steps final
   | CSess cs steps => check_sess (cfg_of cs) empty_sess steps
+  | CWindow n delivered => zlist_eqb delivered (firstn window_cap (map Z.of_nat (seq 0 n)))
+  | CCluster cs steps => check_cluster (cfg_of cs) empty_sess steps
   end.
 
 Definition run (cs : list case) : list N := mismatches check cs.
